@@ -124,12 +124,27 @@ func genCarrier(c *RunConfig, r *simctl.Rand, fast bool) {
 // histories.
 func detPrelude(w string, r *simctl.Rand) []PreludeSpec {
 	pw := w
-	switch r.Intn(4) {
+	switch r.Intn(5) {
 	case 0:
 		pw = []string{WPeriod, WPeriodFast}[r.Intn(2)]
 	case 1:
 		all := []string{WFactory, WPowerOn, WPeriod, WFactoryFast, WPowerOnFast, WPeriodFast}
 		pw = all[r.Intn(len(all))]
+	case 2:
+		// a workflow of the other sample size and/or sample count, same family
+		// (whatever is sized by one call and reused by the next shows here)
+		if Info(w).SampleBytes == 2500 {
+			pw = []string{WPowerOn, WFactory, WPowerOnFast, WFactoryFast}[r.Intn(4)]
+		} else {
+			pw = []string{WPeriod, WPeriodFast, WFactory, WFactoryFast, WPowerOn, WPowerOnFast}[r.Intn(6)]
+		}
+		if Info(w).Fast != Info(pw).Fast && r.Intn(2) == 0 {
+			if Info(w).Fast {
+				pw = pw + "Fast"
+			} else {
+				pw = Info(pw).Sequential
+			}
+		}
 	}
 	wi := Info(pw)
 	p := PreludeSpec{Workflow: pw, Stream: StreamSpec{Kind: "prf", Seed: r.Uint64()}}
@@ -648,6 +663,31 @@ func Plan(prop, tier string, seed uint64) []RunConfig {
 				}
 			}
 		}
+		// a 2500-byte-sample workflow right after a 125000-byte-sample one of
+		// the same family, under full and under short reads
+		nafter := 12
+		if thorough {
+			nafter = 400
+		}
+		for i := 0; i < nafter; i++ {
+			w := []string{WPeriodFast, WPeriod}[i%2]
+			pw := []string{WPowerOnFast, WFactoryFast}[r.Intn(2)]
+			if w == WPeriod {
+				pw = []string{WPowerOn, WFactory}[r.Intn(2)]
+			}
+			W := workerChoices[r.Intn(len(workerChoices))]
+			scs := scenarios(w, r, false)
+			pre := PreludeSpec{Workflow: pw, Stream: StreamSpec{Kind: "prf", Seed: r.Uint64()}}
+			if r.Intn(2) == 0 {
+				pre.Fault = FaultSpec{Kind: "eof", At: int64(1+r.Intn(3)) * 125000, Sticky: true}
+			}
+			st := prfStream(r)
+			st.Tail = []int{0, 0, 4096, 300000}[r.Intn(4)]
+			c := RunConfig{Prop: prop, Workflow: w, Workers: W, Policy: genPolicy(r, estSteps(w, W)), Stream: st, Chunk: chunkFor(w, r),
+				Fault: FaultSpec{Kind: "none"}, Runners: scs[r.Intn(len(scs))].spec, ReadYield: 17, Prelude: []PreludeSpec{pre}, Note: "after-a-larger-sample-workflow"}
+			c.Policy.Pool = 0
+			out = append(out, c)
+		}
 		// byte-at-a-time delivery of the 10^6-bit samples (more than 65536 Read
 		// calls per sample) and of large single-shot requests
 		ntiny := 2
@@ -725,6 +765,22 @@ func Plan(prop, tier string, seed uint64) []RunConfig {
 			}
 			for _, nb := range []int{4097, 5000, 8192, 10240 / 8, 10240/8 + 1, 10240/8 - 1, 12500, 65536, 125000} {
 				out = append(out, singleCase(prop, nb, r))
+			}
+			// contents on the decision boundary: for every length the two pattern
+			// histograms whose poker P-value is closest to alpha from either side
+			// (pokeredge.go); any slip of one count, of V's arithmetic or of the
+			// comparison flips one of the two verdicts
+			for nb := 16; nb <= 4096; nb++ {
+				if !thorough && rep == 0 && nb > 400 && nb%3 != 0 && (nb < 1270 || nb > 1300) {
+					continue
+				}
+				for side := 0; side < 2; side++ {
+					c := singleCase(prop, nb, r)
+					c.Stream = StreamSpec{Kind: "pokeredge", Seed: r.Uint64(), Bias: side, Tail: r.Intn(3), TailSd: r.Uint64()}
+					c.Prelude, c.Companion, c.Carrier, c.CarrierOffset = nil, nil, "", 0
+					c.Note = "poker-p-next-to-alpha"
+					out = append(out, c)
+				}
 			}
 			// selected larger lengths: around powers of two and multiples of 65536
 			// (where narrow counters wrap), on constant, biased and PRF contents
